@@ -494,6 +494,8 @@ class EdgeQLSourceGenerator(codegen.SourceGenerator):
         self.write(')')
 
     def visit_TypeOp(self, node: qlast.TypeOp) -> None:
+        if node.name is not None:
+            self.write(ident_to_str(node.name), ': ')
         self.write('(')
         self.visit(node.left)
         self.write(' ' + str(node.op).upper() + ' ')
@@ -853,6 +855,8 @@ class EdgeQLSourceGenerator(codegen.SourceGenerator):
         self.visit(node.type)
 
     def visit_TypeOf(self, node: qlast.TypeOf) -> None:
+        if node.name is not None:
+            self.write(ident_to_str(node.name), ': ')
         self.write('TYPEOF ')
         self.visit(node.expr)
 
@@ -1274,6 +1278,7 @@ class EdgeQLSourceGenerator(codegen.SourceGenerator):
         self,
         node: qlast.CreateExtension,
     ) -> None:
+        self._visit_aliases(node)
         if self.sdlmode or self.descmode:
             self._write_keywords('using extension')
         else:
@@ -1287,6 +1292,7 @@ class EdgeQLSourceGenerator(codegen.SourceGenerator):
             self._ddl_visit_body(node.commands)
 
     def visit_AlterExtension(self, node: qlast.AlterExtension) -> None:
+        self._visit_aliases(node)
         self._write_keywords('ALTER EXTENSION')
         self.write(' ')
         self.write(ident_to_str(node.name.name))
@@ -1308,6 +1314,7 @@ class EdgeQLSourceGenerator(codegen.SourceGenerator):
         self,
         node: qlast.CreateFuture,
     ) -> None:
+        self._visit_aliases(node)
         if self.sdlmode or self.descmode:
             self._write_keywords('using future')
         else:
